@@ -160,6 +160,18 @@ Definition pow10z (k : nat) : Z := 10 ^ Z.of_nat k.
 Definition decimal_value (ip fp : list Z) : value :=      (* float("ip.fp") as the exact decimal *)
   VFlt (Qmake (digits_z (ip ++ fp)) (Z.to_pos (pow10z (length fp)))).
 
+(* the & operator: str() of floats, logicals other than via text, dates and lists is not modelled - such a
+   concatenation is outside the model (RUnmodelled), never reported as an exception *)
+Definition amp_res (l r : value) : res value :=
+  match l, r with
+  | VErr _, _ => ROk l
+  | _, VErr _ => ROk r
+  | _, _ => match amp_text l, amp_text r with
+            | Some a, Some b => ROk (VText (a ++ b))
+            | _, _ => RUnmodelled
+            end
+  end.
+
 (* ---------- the grammar actions ---------- *)
 Definition tok_is (s : list Z) (c : Z) : bool := list_eqb s [c].
 Definition is_nonterm (sym : Z) : bool := sym <? 0.
@@ -182,9 +194,9 @@ Definition sem_action (h : host) (fn : Z) (rhs : list Z) (vals : list sv) : res 
   | 1 | 9 | 19 => match vals with [SVval v] => no_ev (ROk (SVval v)) | _ => no_ev RExc end
   | 2 => match vals with
          | [SVval l; SVtok op; SVval r] =>
-             no_ev (rbind (of_outcome
-               (if tok_is op 38 then eval_amp l r
-                else eval_arith 60 (if tok_is op 43 then 0 else if tok_is op 45 then 1 else if tok_is op 42 then 2 else 3) l r))
+             no_ev (rbind
+               (if tok_is op 38 then amp_res l r
+                else of_outcome (eval_arith 60 (if tok_is op 43 then 0 else if tok_is op 45 then 1 else if tok_is op 42 then 2 else 3) l r))
                (fun v => ROk (SVval v)))
          | _ => no_ev RExc end
   | 3 => match vals with
